@@ -331,6 +331,27 @@ func (ex *Exec) bytesToInt(st *PState, buf *SliceV) *Term {
 	if c, ok := buf.Len.constInt(); ok {
 		var parts []*Term
 		n := c.Int64()
+		// all bytes are the big-endian encoding of one known integer: return it
+		if n > 0 {
+			var src *Term
+			okAll := true
+			for i := int64(0); i < n && okAll; i++ {
+				b, isT := ex.sliceElem(st, buf, ts.Int64(i)).(*Term)
+				if !isT {
+					okAll = false
+					break
+				}
+				p, has := ex.byteProv[b.id]
+				if !has || int64(p.n) != n || int64(p.i) != i || (src != nil && p.src != src) {
+					okAll = false
+					break
+				}
+				src = p.src
+			}
+			if okAll && src != nil {
+				return src
+			}
+		}
 		for i := int64(0); i < n; i++ {
 			b := ex.sliceElem(st, buf, ts.Int64(i)).(*Term)
 			parts = append(parts, ts.Mul(ts.Int(pow2(uint(8*(n-1-i)))), b))
